@@ -44,7 +44,8 @@ def rockit_side(args):
     out = {"id": case.get("id")}
     try:
         buf = io.StringIO()
-        with contextlib.redirect_stdout(buf):
+        from .common import time_limit
+        with time_limit(180), contextlib.redirect_stdout(buf):
             B = CS.build_rockit(case, rockit)
             out["inputs"] = impl_inputs(B, case)
             ob = nlp.observe(B, case, extras_fn)
